@@ -113,10 +113,294 @@ class Desugar(ast.NodeTransformer):
         return self._finish(_call("__pyvc_dict__", self._pipeline(pair, node.generators)), node)
 
 
+# ======================================================================================================================
+# for-loops
+# ======================================================================================================================
+#
+#     for T in S:                        def __pyvc_body_k(T):
+#         BODY                   ->          nonlocal <names BODY assigns that the enclosing function also binds>
+#     [else: E]                              BODY'       (continue -> return None; break -> return BREAK;
+#                                                         return X -> return Ret(X))
+#                                        __pyvc_r_k = __pyvc_for__(S, __pyvc_body_k, (<nonlocal names>), generic_ok)
+#                                        if __pyvc_isret__(__pyvc_r_k): return __pyvc_r_k.value      (if BODY returns)
+#                                        if __pyvc_r_k is None: E                                     (if else-clause)
+#
+# On concrete data `__pyvc_for__` is the loop CPython would run (same order, same early exits).  On an abstract sequence
+# it runs the body once on the generic element in local frames and turns the effects into folds (pyvc.loops).  The
+# rewrite is applied only when it is an exact re-expression of the loop: the loop sits in a function; targets are plain
+# names; neither the targets nor the names only BODY assigns are read outside the loop; BODY has no yield / await / try /
+# with / import / def / class / del / global / nonlocal / match / zero-argument super().  Every other `for` is compiled
+# as written with its iterable passed through `__pyvc_iter__`, which refuses an abstract sequence (the native loop would
+# run the body once on a placeholder).  `generic_ok` is false when BODY has statement-level effects other than
+# `name.append(x)` and assignments to plain names; such a loop over an abstract sequence is outside the subset.
+
+_SCOPES = (ast.FunctionDef, ast.AsyncFunctionDef, ast.Lambda, ast.ClassDef, ast.ListComp, ast.SetComp, ast.DictComp,
+           ast.GeneratorExp)
+
+
+def _own(node):
+    """nodes of node's subtree that belong to the same scope (does not enter nested scopes; yields the scope nodes)"""
+    stack = list(ast.iter_child_nodes(node))
+    while stack:
+        n = stack.pop()
+        yield n
+        if not isinstance(n, _SCOPES):
+            stack.extend(ast.iter_child_nodes(n))
+
+
+def _stores(nodes):
+    out = set()
+    for n in nodes:
+        if isinstance(n, ast.Name) and isinstance(n.ctx, (ast.Store, ast.Del)):
+            out.add(n.id)
+        elif isinstance(n, (ast.FunctionDef, ast.AsyncFunctionDef, ast.ClassDef)):
+            out.add(n.name)
+        elif isinstance(n, ast.ExceptHandler) and n.name:
+            out.add(n.name)
+        elif isinstance(n, (ast.Import, ast.ImportFrom)):
+            for a in n.names:
+                out.add((a.asname or a.name).split(".")[0])
+    return out
+
+
+def _binds(scope, name):
+    """does the nested scope bind `name` itself (so that loads inside it do not refer to the enclosing variable)?"""
+    if isinstance(scope, (ast.FunctionDef, ast.AsyncFunctionDef, ast.Lambda)):
+        a = scope.args
+        params = [x.arg for x in a.posonlyargs + a.args + a.kwonlyargs] + [x.arg for x in (a.vararg, a.kwarg) if x]
+        if name in params:
+            return True
+        if isinstance(scope, ast.Lambda):
+            return False
+        body = [n for st in scope.body for n in [st] + list(_own(st))]
+        for n in body:
+            if isinstance(n, (ast.Nonlocal, ast.Global)) and name in n.names:
+                return False
+        return name in _stores(body)
+    if isinstance(scope, ast.ClassDef):
+        return False
+    return any(name in _stores(list(_own(g.target)) + [g.target]) for g in scope.generators)
+
+
+def _free_load(node, name, skip=None):
+    """is `name` read (as the enclosing function's variable) anywhere in node's subtree, outside `skip`?"""
+    if node is skip:
+        return False
+    if isinstance(node, ast.Name) and node.id == name and isinstance(node.ctx, ast.Load):
+        return True
+    if isinstance(node, _SCOPES) and _binds(node, name):
+        if isinstance(node, (ast.ListComp, ast.SetComp, ast.DictComp, ast.GeneratorExp)):
+            return _free_load(node.generators[0].iter, name, skip)
+        if isinstance(node, ast.Lambda):
+            return any(_free_load(d, name, skip) for d in node.args.defaults + [d for d in node.args.kw_defaults if d])
+        return False
+    return any(_free_load(ch, name, skip) for ch in ast.iter_child_nodes(node))
+
+
+_FORBIDDEN = (ast.Yield, ast.YieldFrom, ast.Await, ast.Try, ast.With, ast.AsyncWith, ast.AsyncFor, ast.Import,
+              ast.ImportFrom, ast.FunctionDef, ast.AsyncFunctionDef, ast.ClassDef, ast.Delete, ast.Global, ast.Nonlocal,
+              ast.NamedExpr) + tuple(getattr(ast, n) for n in ("Match", "TryStar") if hasattr(ast, n))
+
+
+def _simple_effects(stmts):
+    """statement-level effects limited to: assignments to plain names, name.append(x), control flow"""
+    for st in stmts:
+        if isinstance(st, (ast.Pass, ast.Break, ast.Continue, ast.Return, ast.Raise, ast.Assert)):
+            continue
+        if isinstance(st, ast.Assign):
+            if all(isinstance(t, ast.Name) or (isinstance(t, (ast.Tuple, ast.List)) and all(isinstance(e, ast.Name) for e in t.elts))
+                   for t in st.targets):
+                continue
+            return False
+        if isinstance(st, (ast.AugAssign, ast.AnnAssign)):
+            if isinstance(st.target, ast.Name):
+                continue
+            return False
+        if isinstance(st, ast.If):
+            if _simple_effects(st.body) and _simple_effects(st.orelse):
+                continue
+            return False
+        if isinstance(st, ast.Expr):
+            v = st.value
+            if isinstance(v, ast.Constant):
+                continue
+            if isinstance(v, ast.Call) and isinstance(v.func, ast.Attribute) and v.func.attr == "append" \
+                    and isinstance(v.func.value, ast.Name) and len(v.args) == 1 and not v.keywords:
+                continue
+            return False
+        if isinstance(st, (ast.For, ast.While)):
+            if _simple_effects(st.body) and _simple_effects(st.orelse):
+                continue
+            return False
+        return False
+    return True
+
+
+class _BodyRewrite(ast.NodeTransformer):
+    """continue / break / return of THIS loop -> returns of the body function"""
+
+    def __init__(self):
+        self.has_return = False
+
+    def visit_FunctionDef(self, node): return node
+    visit_AsyncFunctionDef = visit_Lambda = visit_ClassDef = visit_FunctionDef
+
+    def _inner_loop(self, node):
+        # break / continue inside belong to the inner loop; return still belongs to the function
+        saved = getattr(self, "_depth", 0)
+        self._depth = saved + 1
+        self.generic_visit(node)
+        self._depth = saved
+        return node
+    visit_For = visit_While = _inner_loop
+
+    def visit_Continue(self, node):
+        if getattr(self, "_depth", 0):
+            return node
+        return ast.copy_location(ast.Return(value=ast.Constant(value=None)), node)
+
+    def visit_Break(self, node):
+        if getattr(self, "_depth", 0):
+            return node
+        return ast.copy_location(ast.Return(value=_name("__pyvc_BREAK__")), node)
+
+    def visit_Return(self, node):
+        self.has_return = True
+        val = node.value if node.value is not None else ast.Constant(value=None)
+        return ast.copy_location(ast.Return(value=_call("__pyvc_Ret__", val)), node)
+
+
+class LoopDesugar:
+    def __init__(self):
+        self.count = 0
+        self.guarded = 0
+        self._k = 0
+
+    # -- entry ---------------------------------------------------------------------------------------------------------
+    def run(self, tree):
+        self._scope(tree, None)
+        return tree
+
+    def _scope(self, node, func):
+        """rewrite the statement lists of `node`'s own scope; `func` = enclosing FunctionDef (None: module / class)"""
+        for field in ("body", "orelse", "finalbody", "handlers"):
+            stmts = getattr(node, field, None)
+            if not isinstance(stmts, list):
+                continue
+            new = []
+            for st in stmts:
+                if isinstance(st, (ast.FunctionDef, ast.AsyncFunctionDef)):
+                    self._scope(st, st if isinstance(st, ast.FunctionDef) else None)
+                    new.append(st)
+                elif isinstance(st, ast.ClassDef):
+                    self._scope(st, None)
+                    new.append(st)
+                elif isinstance(st, ast.For):
+                    new.extend(self._for(st, func))
+                else:
+                    if not isinstance(st, ast.expr):
+                        self._scope(st, func)
+                    new.append(st)
+            setattr(node, field, new)
+        # match statements / other containers are left alone (their loops keep the guard-free native form)
+
+    # -- one loop ------------------------------------------------------------------------------------------------------
+    def _guard(self, st, func):
+        self.guarded += 1
+        st.iter = ast.copy_location(_call("__pyvc_iter__", st.iter), st.iter)
+        ast.fix_missing_locations(st.iter)
+        self._scope(st, func)
+        return [st]
+
+    def _for(self, st, func):
+        if func is None:
+            return self._guard(st, func)
+        tgt = st.target
+        if not _flat_target(tgt):
+            return self._guard(st, func)
+        tnames = [tgt.id] if isinstance(tgt, ast.Name) else [e.id for e in tgt.elts]
+        inner = [n for b in st.body + st.orelse for n in [b] + list(_own(b))]
+        if any(isinstance(n, _FORBIDDEN) for n in inner) or \
+                any(isinstance(n, ast.Name) and n.id in ("super", "locals", "vars", "eval", "exec") for n in inner):
+            return self._guard(st, func)
+        body_nodes = [n for b in st.body for n in [b] + list(_own(b))]
+        W = _stores(body_nodes) - set(tnames)
+        fn_nodes = list(_own(func))
+        decl = set()
+        for n in fn_nodes:
+            if isinstance(n, ast.Global):
+                decl |= set(n.names)
+        if decl & (W | set(tnames)):
+            return self._guard(st, func)
+        a = func.args
+        params = {x.arg for x in a.posonlyargs + a.args + a.kwonlyargs} | {x.arg for x in (a.vararg, a.kwarg) if x}
+        loop_nodes = {id(n) for n in [st] + list(_own(st))}
+        outside = [n for n in fn_nodes if id(n) not in loop_nodes]
+        stores_outside = _stores(outside) | params
+        for n in fn_nodes:
+            if isinstance(n, ast.Nonlocal):
+                stores_outside |= set(n.names)
+        carried = sorted(W & stores_outside)
+        temps = W - stores_outside
+        # names the loop alone binds must not be read outside it
+        for name in list(temps) + tnames:
+            for other in func.body:
+                if _free_load(other, name, skip=st):
+                    return self._guard(st, func)
+            # the for-else clause runs after the loop, in the enclosing function
+            if any(_free_load(e, name) for e in st.orelse):
+                return self._guard(st, func)
+        # build the body function
+        self._k += 1
+        k = self._k
+        self.count += 1
+        rw = _BodyRewrite()
+        body = [rw.visit(b) for b in st.body]
+        fname, rname = f"__pyvc_body_{k}", f"__pyvc_r_{k}"
+        if isinstance(tgt, ast.Name):
+            fargs = ast.arguments(posonlyargs=[], args=[ast.arg(arg=tgt.id)], kwonlyargs=[], kw_defaults=[], defaults=[])
+            pre = []
+        else:
+            fargs = ast.arguments(posonlyargs=[], args=[ast.arg(arg="__pyvc_t__")], kwonlyargs=[], kw_defaults=[], defaults=[])
+            pre = [ast.Assign(targets=[ast.Tuple(elts=[ast.Name(id=n, ctx=ast.Store()) for n in tnames], ctx=ast.Store())],
+                              value=_name("__pyvc_t__"))]
+        fbody = ([ast.Nonlocal(names=carried)] if carried else []) + pre + body + [ast.Return(value=ast.Constant(value=None))]
+        fdef = ast.FunctionDef(name=fname, args=fargs, body=fbody, decorator_list=[], returns=None, type_comment=None)
+        if hasattr(ast, "TypeVar"):
+            fdef.type_params = []
+        generic_ok = _simple_effects(st.body)
+        call = ast.Assign(targets=[ast.Name(id=rname, ctx=ast.Store())],
+                          value=_call("__pyvc_for__", st.iter, _name(fname),
+                                      ast.Tuple(elts=[ast.Constant(value=n) for n in carried], ctx=ast.Load()),
+                                      ast.Constant(value=generic_ok)))
+        out = [fdef, call]
+        if rw.has_return:
+            out.append(ast.If(test=_call("__pyvc_isret__", _name(rname)),
+                              body=[ast.Return(value=ast.Attribute(value=_name(rname), attr="value", ctx=ast.Load()))], orelse=[]))
+        if st.orelse:
+            out.append(ast.If(test=ast.Compare(left=_name(rname), ops=[ast.Is()], comparators=[ast.Constant(value=None)]),
+                              body=st.orelse, orelse=[]))
+        for o in out:
+            ast.copy_location(o, st)
+            for n in ast.walk(o):
+                if not hasattr(n, "lineno"):
+                    ast.copy_location(n, st)
+            ast.fix_missing_locations(o)
+        # loops nested in the body are handled with the body function as their enclosing function
+        self._scope(fdef, fdef)
+        for o in out[2:]:
+            self._scope(o, func)
+        return out
+
+
 def desugar(src, path):
-    """-> (ast ready for compile, number of comprehensions rewritten, number left untouched)"""
+    """-> (ast ready for compile, {comprehensions, comprehensions_untouched, loops, loops_guarded})"""
     tree = ast.parse(src, path)
     d = Desugar()
     tree = d.visit(tree)
     ast.fix_missing_locations(tree)
-    return tree, d.count, d.skipped
+    ld = LoopDesugar()
+    ld.run(tree)
+    ast.fix_missing_locations(tree)
+    return tree, {"comprehensions": d.count, "comprehensions_untouched": d.skipped, "loops": ld.count,
+                  "loops_guarded": ld.guarded}
